@@ -120,4 +120,15 @@ def check(prop, tier):
 
 
 def replay(path):
-    return check(json.load(open(path))["property"], "quick")
+    rp = json.load(open(path))
+    d = tlc.workdir("smdefreplay")
+    cp, op = os.path.join(d, "cases.json"), os.path.join(d, "out.json")
+    json.dump([rp["case"]], open(cp, "w"))
+    run_driver("smdef_driver.py", ["--cases", cp, "--out", op], cwd=d)
+    o = json.load(open(op))[0]
+    f = judge_case(rp["case"], rp["expected"], o)
+    print("replay: required %s observed %s -> %s" % (json.dumps(rp["expected"]), json.dumps(o), f or "agrees"))
+    if f:
+        print("VIOLATION property=%s replay=%s" % (rp["property"], path))
+        return 1
+    return 0
